@@ -17,17 +17,23 @@ MANIFEST = dict(
     technique="Lean 4 proof (index model refines FIFO spec, invariant by induction over operations) + "
               "differential correspondence of cbuf.c against the compiled model",
     text="Theorems in lean/PdshVerif/Props/C13.lean about the index-level model of cbuf.c (all op sequences, "
-         "all sizes, all three modes; the property's operation list and, beyond it, replay/rewind, the *_to_fd "
-         "calls on a descriptor that takes only some bytes, and copy/move between two buffers); the protocol "
-         "driver executes exactly the step functions the theorems are about; the model is executed against the "
-         "real cbuf.c (assertions+ASan and shipped flavour) on generated op histories, and the real code is "
-         "also compared op by op with the FIFO specification (with its history of replayable bytes), which "
-         "yields the failing history as replay.",
+         "all sizes, all three modes, EVERY admissible growth policy of cbuf_grow; the property's operation list "
+         "and, beyond it, every function cbuf.h declares: replay/rewind and their line-level forms, the *_to_fd "
+         "calls on a descriptor that takes only some bytes, copy/move between two buffers, all getters; any "
+         "concurrent history under the buffer's mutex equals the sequential history of its calls); the protocol "
+         "driver executes exactly the step functions the theorems are about, following at every step the "
+         "capacity the code under test reported (the growth policy is learnt behaviourally); the model is "
+         "executed against the real cbuf.c (assertions+ASan and shipped flavour) on a deterministic core of op "
+         "histories plus random ones, and the real code is also compared op by op with the FIFO specification "
+         "(with its history of replayable bytes), which yields the failing history as replay; every public call "
+         "is checked for the locking discipline.",
     design_ref="DESIGN.md section 5 C13",
     note="Lean 4.33 kernel; axioms propext/Classical.choice/Quot.sound at most (audited per theorem every run); "
          "hand-written model tied to cbuf.c by differential execution of the real source built from /repo's "
-         "working tree plus constants regenerated from /repo; read(2)/pipe, memcpy/memmove/realloc modelled not "
-         "verified; per-cbuf mutex not modelled; harness, generators, gcc, ASan/UBSan trusted")
+         "working tree plus constants and the list of prototypes of cbuf.h regenerated from /repo; "
+         "read(2)/pipe, memcpy/memmove/realloc modelled not verified; the mutex is modelled as the discipline "
+         "lock / critical section / unlock, which the harness checks on every call (pthread semantics trusted); "
+         "harness, generators, gcc, ASan/UBSan trusted")
 CHUNK = 1000
 
 
@@ -141,7 +147,14 @@ def gen_seq(rng, meta, nops, shape):
             elif two and k < 0.52:
                 g, g2 = g2, g
                 seq.append("sel %d" % g.idx)
-            elif k < 0.62:
+            elif k < 0.57:
+                seq.append("yline %d %d" % (rng.choice([pick_len(rng, g), pick_len(rng, g), 0, 1, 2, -1, g.size + 1]),
+                                            rng.choice([-1, -1, 1, 1, 2, 3, 0, -2, 7])))
+            elif k < 0.60:
+                ln = rng.choice([pick_len(rng, g), 0, 1, 2, -1, g.size])
+                seq.append("wrline %d %d" % (ln, rng.choice([-1, -1, 1, 1, 2, 0, -2])))
+                g.used = min(g.size, g.used + max(0, ln) // 2)
+            elif k < 0.64:
                 seq.append("replay %d" % rng.choice([pick_len(rng, g), 1, 2, 3, g.size, g.size + 1, 0, -1, -2]))
             elif k < 0.78:
                 n = rng.choice([pick_len(rng, g), 1, 2, 3, -1, -1, 0, -2, g.size])
@@ -231,7 +244,17 @@ def run(ctx):
     ok1 = ctx.cc(exe_dbg, [os.path.join(HARNESS, "cbuf_harness.c")], san=True, assertions=True)
     ok2 = ctx.cc(exe_rel, [os.path.join(HARNESS, "cbuf_harness.c")], san=True, assertions=False)
     cov = {"evaluations": 0, "distinct_nontrivial": 0, "samples": [],
-           "rule": "op sequences over create/opt/write/write_from_fd/write_line/read/read_to_fd/peek/drop/"
+           "rule": "FIRST a deterministic core, identical at every seed (blocks `core:*` of the distribution): all "
+                   "sequences of length <= 4 over a 9-op alphabet on a min=2,max=5 buffer per mode; every public "
+                   "operation with boundary arguments (lines -1/0/1/many, lengths around every line length, "
+                   "descriptor capacities 0.., short reads 0..request, EOF/EAGAIN, EINTR before every read/write) x "
+                   "every wrap position x fill level and newline layout x every overwrite mode of a 3/3 and a "
+                   "2..5 buffer; copy/move at every wrap position into growing/wrapping destinations; sizes around "
+                   "every growth step up to the maximum per mode and writing call; growth capped by the maximum "
+                   "with space already free; short reads on a buffer that cannot grow; cbuf_grow from every index "
+                   "relation (all prefixes write a, read b, write c, read d); the dsh.c buffer 64..131072 filled "
+                   "through all growth steps; the pinned corpus/C13 cases.  THEN random "
+                   "op sequences over create/opt/write/write_from_fd/write_line/read/read_to_fd/peek/drop/"
                    "read_line/peek_line/drop_line/flush/replay/rewind/peek_to_fd/read_to_fd/replay_to_fd (descriptor "
                    "sinks that take 0, 1, .., used-1, used, used+1 or all bytes and then fail with EAGAIN) and, on a "
                    "pair of buffers with independent bounds and modes (35% of the sequences), copy/move, "
@@ -257,66 +280,38 @@ def run(ctx):
             else:
                 replay_seq = rc["ops"] if isinstance(rc, dict) else rc
                 nseq, corpus = 0, []
-        dist = {"ops": 0, "grow_or_overwrite": 0, "shapes": {}, "crash": 0, "op_kinds": {}}
+        dist = {"ops": 0, "grow_or_overwrite": 0, "shapes": {}, "crash": 0, "op_kinds": {}, "blocks": {},
+                "lock_discipline_calls_checked": 0}
         distinct = set()
         for exe, name, meta in flavours:
-            seqs = [[l.replace("META", str(meta)) for l in s] for s in corpus]
+            # named blocks, processed in this order; the deterministic core (the same in every run,
+            # whatever VERIF_SEED is) comes before the random sequences
+            blocks = [("corpus", [[l.replace("META", str(meta)) for l in s] for s in corpus])]
             if replay_seq:
                 # a replay re-runs exactly the recorded op sequence (create lines re-targeted to this flavour)
-                seqs.append([" ".join(l.split()[:3] + [str(meta)]) if l.startswith("create ") else l
-                             for l in replay_seq])
+                blocks.append(("replay", [[" ".join(l.split()[:3] + [str(meta)]) if l.startswith("create ") else l
+                                           for l in replay_seq]]))
+            else:
+                full = name.startswith("assert") or ctx.tier == "thorough"
+                blocks += core_blocks(meta, full)
+            rnd = []
             for i in range(nseq):
                 shape = rng.choices(["tiny", "fixed", "chunk", "prod"], [50, 15, 25, 10])[0]
                 dist["shapes"][shape] = dist["shapes"].get(shape, 0) + 1
-                seqs.append(gen_seq(rng, meta, rng.randrange(4, 40 if shape != "prod" else 14), shape))
+                rnd.append(gen_seq(rng, meta, rng.randrange(4, 40 if shape != "prod" else 14), shape))
+            blocks.append(("random", rnd))
             if ctx.tier == "thorough" and name.startswith("assert") and not replay_seq:
-                seqs += exhaustive_small(meta)
-            # every sequence starts from nothing (both buffers gone, first buffer selected): the three
-            # runs stay in step even when the implementation's process had to be restarted after a crash
-            seqs = [s if s and s[0] == "reset" else ["reset"] + s for s in seqs]
-            impl = run_batch([exe], seqs, env=dict(os.environ, ASAN_OPTIONS="detect_leaks=0"))
-            text = "".join(l + "\n" for s in seqs for l in s)
-            mlines = ctx.model("cbuf", text, args=["model"])
-            slines = ctx.model("cbuf", annotate(seqs, [a for a, _ in impl]), args=["spec"])
-            pos = 0
-            for s, (ans, crash) in zip(seqs, impl):
-                m = mlines[pos:pos + len(s)]
-                sp = slines[pos:pos + len(s)]
-                pos += len(s)
-                cov["evaluations"] += 1
-                dist["ops"] += len(s)
-                for l, a_ in zip(s, ans):
-                    k = l.split()[0]
-                    dist["op_kinds"][k] = dist["op_kinds"].get(k, 0) + 1
-                    if a_ in ("bad-op", "no-cbuf"):
-                        dist["refused_lines"] = dist.get("refused_lines", 0) + 1
-                if nontrivial(ans):
-                    key = hash("\n".join(s))
-                    if key not in distinct:
-                        distinct.add(key)
-                        dist["grow_or_overwrite"] += 1
-                if len(cov["samples"]) < 3 and len(s) < 12 and nontrivial(ans):
-                    cov["samples"].append({"flavour": name, "ops": s, "impl": ans})
-                if crash is not None:
-                    dist["crash"] += 1
-                    k = len(ans)
-                    ctx.offender("crash", "cbuf.c aborts (assertion/sanitizer/fatal) in flavour %s at op %d: %s" %
-                                 (name, k, crash[-600:]),
-                                 {"flavour": name, "ops": s[:k + 1], "impl": ans, "spec": sp[:k + 1]})
+                blocks.append(("exhaustive-small", exhaustive_small(meta)))
+            found = 0
+            for bname, seqs in blocks:
+                if not seqs:
                     continue
-                if ans != sp:
-                    k = next(i for i in range(len(s)) if ans[i] != sp[i])
-                    small = shrink(ctx, exe, s, "spec")
-                    ctx.offender("fifo-mismatch:" + s[k].split()[0],
-                                 "cbuf.c differs from the FIFO specification at op `%s`: impl `%s` spec `%s`" %
-                                 (s[k][:80], ans[k][:120], sp[k][:120]),
-                                 {"flavour": name, "ops": small, "first_diff_op_in_original": s[k][:200],
-                                  "impl": ans[k], "spec": sp[k]})
-                if ans != m:
-                    k = next(i for i in range(len(s)) if ans[i] != m[i])
-                    ctx.disagreement("cbuf model vs cbuf.c (%s)" % name,
-                                     "op `%s`: impl `%s` model `%s`" % (s[k][:80], ans[k][:120], m[k][:120]),
-                                     shrink(ctx, exe, s, "model"))
+                if found >= 3 and bname != "random":
+                    # concrete replays exist already: do not grind through thousands of further
+                    # deterministic sequences of a tree that fails on most of them
+                    dist["blocks"][bname + "/" + name] = "skipped after %d findings" % found
+                    continue
+                found += process_block(ctx, cov, dist, distinct, exe, name, bname, seqs)
         cov["distinct_nontrivial"] = len(distinct)
         cov["distribution"] = dist
         cov["traces_validated_against_impl"] = cov["evaluations"]
@@ -324,12 +319,384 @@ def run(ctx):
         LEVEL, cov,
         assumptions=["read(2)/pipe semantics as modelled by Src.fd (available bytes, then EAGAIN or EOF)",
                      "memcpy/memmove/realloc behave per ISO C; realloc never fails",
-                     "single-threaded use per buffer (the per-cbuf mutex is not modelled)"],
+                     "pthread mutexes are mutually exclusive; every public function of cbuf.c is one critical "
+                     "section of the buffer's mutex (checked on every call the harness makes, not proved of the C text)",
+                     "growth policy of cbuf_grow: any choice that covers the request or reaches the maximum "
+                     "(Admissible); the choices of the code under test are observed, not assumed"],
         trusted_base=["Lean 4.33 kernel", "axioms: propext, Classical.choice, Quot.sound at most (audited per theorem)",
                       "hand-written index model Cbuf/Model.lean tied to cbuf.c by differential execution",
-                      "Gen/Consts.lean regenerated from /repo (CBUF_CHUNK, mode codes)",
+                      "Gen/Cbuf.lean regenerated from /repo (CBUF_CHUNK, mode codes, every prototype of cbuf.h)",
                       "harness/cbuf_harness.c, vlib/, gcc, ASan/UBSan"],
         checker_cmd="lake build PdshVerif.Props.C13 && #print axioms on every theorem of Props/C13.lean")
+
+
+def run_batch_capped(cmd, seqs, env, max_crashes=3, timeout=600):
+    """like vlib.seqrun.run_batch (one process, restarted behind a sequence that crashed it), but
+    gives up after `max_crashes` crashes: returns the results of the sequences actually run.  A tree
+    that aborts on thousands of sequences would otherwise cost one process restart per abort."""
+    import subprocess
+    results = []
+    start = 0
+    crashes = 0
+    tried_timeout = False
+    while start < len(seqs) and crashes < max_crashes:
+        chunk = seqs[start:]
+        text = "".join(l + "\n" for s in chunk for l in s)
+        try:
+            p = subprocess.run(cmd, input=text.encode(), stdout=subprocess.PIPE, stderr=subprocess.PIPE,
+                               timeout=timeout, env=env)
+            rc, out, err = p.returncode, p.stdout, p.stderr
+        except subprocess.TimeoutExpired as e:
+            if not tried_timeout:
+                tried_timeout = True        # a timeout alone is re-tried once before it is reported
+                continue
+            rc, out, err = -999, e.stdout or b"", b"TIMEOUT"
+        lines = out.decode("utf-8", "replace").split("\n")
+        if lines and lines[-1] == "":
+            lines.pop()
+        pos = 0
+        stopped = False
+        for k, s in enumerate(chunk):
+            if pos + len(s) <= len(lines):
+                results.append((lines[pos:pos + len(s)], None))
+                pos += len(s)
+            else:
+                results.append((lines[pos:], "rc=%s %s" % (rc, err.decode("utf-8", "replace")[-1500:])))
+                crashes += 1
+                start = start + k + 1
+                stopped = True
+                break
+        if not stopped:
+            if rc != 0 and results:
+                a, _ = results[-1]
+                results[-1] = (a, "rc=%s %s" % (rc, err.decode("utf-8", "replace")[-1500:]))
+            break
+    return results
+
+
+def process_block(ctx, cov, dist, distinct, exe, name, bname, seqs):
+    """run one block of sequences on the implementation, the model and the spec; returns the
+    number of findings (offenders and disagreements) it produced"""
+    found = 0
+    # every sequence starts from nothing (both buffers gone, first buffer selected): the three
+    # runs stay in step even when the implementation's process had to be restarted after a crash
+    seqs = [s if s and s[0] == "reset" else ["reset"] + s for s in seqs]
+    impl = run_batch_capped([exe], seqs, env=dict(os.environ, ASAN_OPTIONS="detect_leaks=0"))
+    if len(impl) < len(seqs):
+        dist["blocks"][bname + "/" + name + " (cut after 3 crashes)"] = len(impl)
+        seqs = seqs[:len(impl)]
+    # model and spec both get the op lines annotated with the implementation's own answer
+    # (`@ RET SIZE`): the spec takes them as the choices the property leaves open, the model
+    # FOLLOWS the observed capacity (growth policy = parameter of the model, learnt
+    # behaviourally; an inadmissible choice makes model and spec disagree with the code)
+    text = annotate(seqs, [a for a, _ in impl])
+    mlines = ctx.model("cbuf", text, args=["model"])
+    slines = ctx.model("cbuf", text, args=["spec"])
+    dist["blocks"][bname + "/" + name] = len(seqs)
+    pos = 0
+    for s, (ans, crash) in zip(seqs, impl):
+        if found >= 25:
+            break       # the replays exist; do not record thousands of further failing sequences
+        m = mlines[pos:pos + len(s)]
+        sp = slines[pos:pos + len(s)]
+        pos += len(s)
+        cov["evaluations"] += 1
+        dist["ops"] += len(s)
+        for l, a_ in zip(s, ans):
+            k = l.split(None, 1)[0]
+            dist["op_kinds"][k] = dist["op_kinds"].get(k, 0) + 1
+            if a_ in ("bad-op", "no-cbuf"):
+                dist["refused_lines"] = dist.get("refused_lines", 0) + 1
+        # every answer line with a stat tail stands for 8 public calls whose locking was checked
+        dist["lock_discipline_calls_checked"] += 8 * sum(1 for a_ in ans if " | " in a_)
+        if nontrivial(ans):
+            key = hash("\n".join(s))
+            if key not in distinct:
+                distinct.add(key)
+                dist["grow_or_overwrite"] += 1
+        if len(cov["samples"]) < 3 and len(s) < 12 and nontrivial(ans) and bname == "random":
+            cov["samples"].append({"flavour": name, "ops": s, "impl": ans})
+        if crash is not None:
+            dist["crash"] += 1
+            found += 1
+            k = len(ans)
+            ctx.offender("crash", "cbuf.c aborts (assertion/sanitizer/fatal) in flavour %s at op %d: %s" %
+                         (name, k, crash[-600:]),
+                         {"flavour": name, "block": bname, "ops": s[:k + 1], "impl": ans, "spec": sp[:k + 1]})
+            continue
+        lk = next((i for i, a_ in enumerate(ans) if "!LOCK:" in a_), None)
+        if lk is not None:
+            found += 1
+            ctx.offender("lock-discipline",
+                         "a public function of cbuf.c breaks the locking discipline (takes and releases the "
+                         "buffer's mutex exactly once, never nested) at op `%s`: `%s`" % (s[lk][:80], ans[lk][:160]),
+                         {"flavour": name, "block": bname, "ops": s[:lk + 1], "impl": ans[lk]})
+            continue
+        if ans != sp:
+            found += 1
+            k = next(i for i in range(len(s)) if ans[i] != sp[i])
+            small = shrink(ctx, exe, s, "spec")
+            ctx.offender("fifo-mismatch:" + s[k].split()[0],
+                         "cbuf.c differs from the FIFO specification at op `%s`: impl `%s` spec `%s`" %
+                         (s[k][:80], ans[k][:120], sp[k][:120]),
+                         {"flavour": name, "block": bname, "ops": small, "first_diff_op_in_original": s[k][:200],
+                          "impl": ans[k], "spec": sp[k]})
+        if ans != m:
+            found += 1
+            k = next(i for i in range(len(s)) if ans[i] != m[i])
+            ctx.disagreement("cbuf model vs cbuf.c (%s)" % name,
+                             "op `%s`: impl `%s` model `%s`" % (s[k][:80], ans[k][:120], m[k][:120]),
+                             shrink(ctx, exe, s, "model"))
+    return found
+
+
+# ------------------------------------------------------------------ the deterministic core
+# Runs first in EVERY quick run, identical at every seed.  Each class below answers the question
+# "if a maintainer broke this branch / boundary / error path, which case would notice?".
+
+ALPHA9 = ["write 610a", "write 6263640a65", "write 0a", "read 1", "read 3", "rline 8 1", "rline 3 -1",
+          "drop 2", "wfd -1 780a797a 0"]
+# buffer contents (hex) with newlines at every position relative to the ends
+FILLS = ["-", "61", "610a", "61620a", "0a0a", "610a62", "610a62630a", "6162636465", "0a61620a63"]
+
+
+def hexlen(h):
+    return 0 if h == "-" else len(h) // 2
+
+
+def pat(n, salt=0):
+    """n deterministic bytes (hex), a newline every 7th"""
+    return "".join("0a" if (i + salt) % 7 == 6 else "%02x" % (97 + (i + salt) % 23) for i in range(n)) or "-"
+
+
+def core_ops():
+    """every operation of the public API with boundary arguments: each entry is a list of lines"""
+    ops = []
+    ops += [["write " + h] for h in ("78", "780a", "78790a7a", "0a", "78790a7a770a", "7879797979797979790a")]
+    ops += [["wline " + h] for h in ("-", "78", "780a", "7879797979", "78797979797979797979")]
+    for ln in (-1, 2, 5):
+        for av in ("-", "78", "780a", "780a79", "780a797a7b", "780a797a7b0a7c"):
+            for eof in (0, 1):
+                ops.append(["wfd %d %s %d" % (ln, av, eof)])
+    ops += [["wfd 0 7879 0"], ["wfd -2 7879 0"]]
+    # interrupted system calls at every chunk of the descriptor calls: must be invisible
+    ops += [["eintr 1", "wfd -1 780a79 0"], ["eintr 3", "wfd 5 780a797a7b 1"], ["eintr 2", "wfd 5 78 0"],
+            ["eintr 1", "rfd -1 9"], ["eintr 3", "rfd 9 2"], ["eintr 2", "pfd -1 9"], ["eintr 2", "yfd -1 9"],
+            ["eintr 1", "yfd 2 1"]]
+    for n in (-2, -1, 0, 1, 2, 9):
+        ops += [["read %d" % n], ["peek %d" % n], ["drop %d" % n]]
+    for ln in (-1, 0, 1, 2, 3, 4, 6, 9):
+        for lines in (-2, -1, 0, 1, 2, 3):
+            ops += [["rline %d %d" % (ln, lines)], ["pline %d %d" % (ln, lines)]]
+    for ln in (-1, 0, 1, 3, 9):
+        for lines in (-2, -1, 0, 1, 2):
+            ops.append(["dline %d %d" % (ln, lines)])
+    ops += [["replay %d" % n] for n in (-1, 0, 1, 2, 9)]
+    ops += [["rewind %d" % n] for n in (-2, -1, 0, 1, 2, 9)]
+    for ln in (-2, -1, 0, 2, 9):
+        for cap in (0, 1, 2, 9):
+            ops += [["pfd %d %d" % (ln, cap)], ["rfd %d %d" % (ln, cap)], ["yfd %d %d" % (ln, cap)]]
+    ops += [["rfd -1"], ["flush"], ["opt 0"], ["opt 1"], ["opt 2"], ["opt 3"]]
+    ops += core_ops_lines()
+    return ops
+
+
+def core_ops_lines():
+    """line-level replay side: cbuf_replay_line / cbuf_rewind_line with lines = -1 / 0 / 1 / many and
+    lengths around the line lengths (cbuf_lines_reused is a column of every answer)"""
+    ops = []
+    for ln in (-1, 0, 1, 2, 3, 4, 6, 9):
+        for lines in (-2, -1, 0, 1, 2, 3):
+            ops.append(["yline %d %d" % (ln, lines)])
+    for ln in (-1, 0, 1, 2, 3, 9):
+        for lines in (-2, -1, 0, 1, 2):
+            ops.append(["wrline %d %d" % (ln, lines)])
+    # after consuming something, so that there is a history to look at
+    for k in (1, 2, 9):
+        ops += [["read %d" % k, "yline 9 1"], ["read %d" % k, "yline 9 -1"], ["read %d" % k, "yline 2 -1"],
+                ["read %d" % k, "wrline 9 1"], ["read %d" % k, "wrline 9 -1"], ["read %d" % k, "wrline 1 -1"],
+                ["rline 9 1", "yline 9 %d" % k], ["drop %d" % k, "wrline 9 2", "rline 9 -1"]]
+    return ops
+
+
+def wrap_sweep(meta, thin=1):
+    """EVERY op of the public API x EVERY wrap position of a tiny buffer x fill level and newline
+    layout x EVERY overwrite mode.  `rot` bytes are written and read first, so that i_in/i_out
+    stand at cell `rot` and `rot` replayable bytes exist; then the buffer is filled; then the op;
+    then everything is read back and replayed, so a wrong index or counter shows in the data."""
+    ops = core_ops()
+    out = []
+    n = 0
+    for mn, mx, rots in ((3, 3, (0, 1, 2, 3)), (2, 5, (0, 1, 2))):
+        for rot in rots:
+            for fill in FILLS:
+                if hexlen(fill) > mx:
+                    continue
+                for mode in (0, 1, 2):
+                    pre = ["create %d %d %d" % (mn, mx, meta)]
+                    if rot:
+                        pre += ["write " + pat(rot, 3), "read %d" % rot]
+                    pre += ["opt %d" % mode]
+                    if fill != "-":
+                        pre += ["write " + fill]
+                    for op in ops:
+                        n += 1
+                        if n % thin:
+                            continue
+                        out.append(pre + op + ["yline 9 -1", "pline 9 -1", "read 9", "replay 9"])
+    return out
+
+
+def pair_sweep(meta, thin=1):
+    """cbuf_copy / cbuf_move at every wrap position of the source into destinations that must grow,
+    wrap once or wrap many times, in every mode of the destination"""
+    out = []
+    n = 0
+    for rot in (0, 1, 2, 3):
+        for fill in FILLS:
+            if hexlen(fill) > 3:
+                continue
+            for dmn, dmx in ((1, 3), (2, 2), (1, 1)):
+                for dpre in ("-", "7a"):
+                    for mode in (0, 1, 2):
+                        pre = ["create 3 3 %d" % meta]
+                        if rot:
+                            pre += ["write " + pat(rot, 5), "read %d" % rot]
+                        if fill != "-":
+                            pre += ["write " + fill]
+                        pre += ["sel 1", "create %d %d %d" % (dmn, dmx, meta), "opt %d" % mode]
+                        if dpre != "-":
+                            pre += ["write " + dpre]
+                        pre += ["sel 0"]
+                        for k in ("copy", "move"):
+                            for ln in (-2, -1, 0, 1, 2, 9):
+                                n += 1
+                                if n % thin:
+                                    continue
+                                out.append(pre + ["%s %d" % (k, ln), "read 9", "replay 9", "sel 1", "read 9", "replay 9"])
+    return out
+
+
+def growth_core(meta):
+    """sizes around EVERY growth step up to the maximum, in every mode: the buffer is pushed one
+    byte over its free space again and again (memory writes, descriptor writes with short reads,
+    lines), then over the maximum; and the writes whose growth is capped by the maximum while
+    some space was already free (0 < free < len <= growth + free)."""
+    out = []
+    geos = [(2, 5), (3, 12), (10, 30), (10, 999), (10, 1000), (10, 1001), (64, 983), (64, 1983), (64, 2000),
+            (64, 2017), (100, 2999), (1, 3000), (999, 1000), (1000, 1001)]
+    for mn, mx in geos:
+        for mode in (0, 1, 2):
+            for kind in ("write", "wfd", "wline"):
+                g = Guide(mn, mx, meta)
+                g.mode = mode
+                seq = ["create %d %d %d" % (mn, mx, meta), "opt %d" % mode]
+                for step in range(7):
+                    free = g.size - g.used
+                    for d in ((0, 1) if step % 2 == 0 else (1,)):
+                        n = max(1, free + d)
+                        if kind == "write":
+                            seq.append("write " + pat(n, step))
+                            g.wrote(n)
+                        elif kind == "wfd":
+                            # request more than is available: short read, then EAGAIN / EOF
+                            seq.append("wfd %d %s %d" % (n + 3, pat(n, step), step % 2))
+                            g.wrote(n)
+                        else:
+                            seq.append("wline " + pat(max(0, n - 1), step).replace("0a", "2e"))
+                            g.wrote(n)
+                        free = g.size - g.used
+                    seq.append("read 1")
+                    g.took(1)
+                seq += ["pline 99999 -1", "read 99999", "replay 99999"]
+                out.append(seq)
+    # growth capped by the maximum with space already free
+    for mn, mx in ((10, 30), (2, 5), (5, 6), (64, 100), (10, 1005)):
+        for u in (1, mn - 1, mn):
+            for d in (-1, 0, 1, 2):
+                for mode in (0, 1, 2):
+                    n = mx - u + d
+                    if u < 1 or n < 1:
+                        continue
+                    base = ["create %d %d %d" % (mn, mx, meta), "opt %d" % mode, "write " + pat(u)]
+                    out.append(base + ["write " + pat(n, 2), "read 99999", "replay 99999"])
+                    out.append(base + ["wfd %d %s 0" % (n, pat(n, 2)), "read 99999"])
+                    out.append(base + ["wfd %d %s 1" % (n + 2, pat(max(1, n - 1), 2)), "read 99999"])
+                    out.append(base + ["wline " + pat(max(0, n - 1), 2).replace("0a", "2e"), "read 99999"])
+    # a buffer that cannot grow any more, request larger than the free space, descriptor delivers less
+    for size in (3, 8):
+        for u in range(0, size + 1):
+            for req in (size - u + 1, size - u + 2, size + 1, 2 * size + 3):
+                for av in (0, 1, max(1, size - u), size - u + 1):
+                    for mode in (0, 1, 2):
+                        for eof in (0, 1):
+                            seq = ["create %d %d %d" % (size, size, meta), "opt %d" % mode]
+                            if u:
+                                seq.append("write " + pat(u))
+                            seq += ["wfd %d %s %d" % (req, pat(av, 4), eof), "read 99"]
+                            out.append(seq)
+    return out
+
+
+def grow_states(meta):
+    """cbuf_grow from EVERY index relation of a tiny buffer: every prefix `write a, read b, write c,
+    read d` (a, c up to the minimum size: the second write may wrap, overwrite or grow; b, d up to
+    everything) leaves the three indices, the wrap flag and `used` in every relation they can have
+    -- including empty-and-wrapped, full-and-wrapped, replay region straddling the end --, then a
+    write of each kind that must grow the buffer, then everything is read back and replayed"""
+    out = []
+    for mn, mx in ((2, 9), (3, 40)):
+        for a in range(0, mn + 1):
+            for b in range(0, a + 1):
+                for c in range(0, mn + 1):
+                    for d in range(0, mn + 1):
+                        for mode in (0, 1, 2):
+                            pre = ["create %d %d %d" % (mn, mx, meta), "opt %d" % mode]
+                            if a:
+                                pre.append("write " + pat(a, 1))
+                            if b:
+                                pre.append("read %d" % b)
+                            if c:
+                                pre.append("write " + pat(c, 2))
+                            if d:
+                                pre.append("read %d" % d)
+                            for grow in ("write " + pat(mn + 1, 3), "write " + pat(mn + 4, 4),
+                                         "wfd %d %s 0" % (mn + 2, pat(mn + 2, 5)),
+                                         "wline " + pat(mn + 1, 6).replace("0a", "2e")):
+                                out.append(pre + [grow, "yline 99 -1", "pline 99 -1", "read 99", "replay 99"])
+    return out
+
+
+def prod_fill(meta):
+    """the buffer dsh.c creates (64 .. 131072), filled by `cbuf_write_from_fd (.., -1, ..)` through
+    every one of its growth steps up to the maximum and beyond (overwrite), then read back"""
+    seq = ["create 64 131072 %d" % meta]
+    for i in range(136):
+        seq.append("wfd -1 %s 0" % pat(1100, i))
+    seq += ["pline 200000 -1", "rline 70 1", "read 200000", "wfd -1 %s 1" % pat(10), "read 99"]
+    return [seq]
+
+
+def exhaustive_tiny(meta, maxlen=4):
+    """all sequences of length <= maxlen over the 9-op alphabet on a min=2,max=5 buffer, per mode"""
+    import itertools
+    out = []
+    for mode in (0, 1, 2):
+        for n in range(1, maxlen + 1):
+            for combo in itertools.product(ALPHA9, repeat=n):
+                out.append(["create 2 5 %d" % meta, "opt %d" % mode] + list(combo))
+    return out
+
+
+def core_blocks(meta, full):
+    """`full`: the assertion+sanitizer flavour gets everything; the shipped flavour a thinner slice
+    of the two big sweeps (its code differs only in size_meta and the compiled-out assertions)"""
+    return [("core:exhaustive<=4", exhaustive_tiny(meta, 4 if full else 3)),
+            ("core:wrap-sweep", wrap_sweep(meta, 1 if full else 5)),
+            ("core:pair-sweep", pair_sweep(meta, 1 if full else 3)),
+            ("core:growth-steps", growth_core(meta)),
+            ("core:grow-from-every-state", grow_states(meta)),
+            ("core:prod-fill", prod_fill(meta))]
 
 
 def shrink(ctx, exe, seq, against):
@@ -341,8 +708,7 @@ def shrink(ctx, exe, seq, against):
         (ans, crash), = run_batch([exe], [s], timeout=30, env=dict(os.environ, ASAN_OPTIONS="detect_leaks=0"))
         if crash is not None:
             return False
-        text = "".join(l + "\n" for l in s) if against == "model" else annotate([s], [ans])
-        ref = ctx.model("cbuf", text, args=[against])
+        ref = ctx.model("cbuf", annotate([s], [ans]), args=[against])
         return ans != ref
     try:
         return ddmin(seq, fails, keep_head=1, max_tests=150)
